@@ -65,7 +65,11 @@ func init() {
 		if fr.ideal() {
 			sort = smt.SReal
 		}
-		return IntV{fr.declRange(a[0].(string), sort, new(big.Rat).SetInt(lo), new(big.Rat).SetInt(hi))}
+		v := fr.declRange(a[0].(string), sort, new(big.Rat).SetInt(lo), new(big.Rat).SetInt(hi))
+		if fr.ideal() {
+			fr.i.eng.intTerms = append(fr.i.eng.intTerms, v)
+		}
+		return IntV{v}
 	})
 	reg(N+"DecRange", func(fr *frame, a []value) value {
 		lo, hi := parseRat(a[1].(string)), parseRat(a[2].(string))
@@ -260,17 +264,11 @@ func init() {
 	reg(N+"NearDec", func(fr *frame, a []value) value {
 		c := fr.ctx()
 		x, y := decT(a[0]), decT(a[1])
-		if fr.ideal() {
-			return boolVal(c, c.Eq(x, y))
-		}
 		return boolVal(c, c.Le(c.Abs(c.Sub(x, y)), decT(a[2])))
 	})
 	reg(N+"LeqDec", func(fr *frame, a []value) value {
 		c := fr.ctx()
 		x, y := decT(a[0]), decT(a[1])
-		if fr.ideal() {
-			return boolVal(c, c.Le(x, y))
-		}
 		return boolVal(c, c.Le(x, c.Add(y, decT(a[2]))))
 	})
 }
@@ -278,6 +276,13 @@ func init() {
 func init() {
 	reg(ndPkg+".Overflow", func(fr *frame, a []value) value {
 		fr.i.eng.OverflowChecks = a[0].(bool)
+		return nil
+	})
+}
+
+func init() {
+	reg(ndPkg+".UFWindow", func(fr *frame, a []value) value {
+		fr.i.eng.S.UFWindow = a[0].(int)
 		return nil
 	})
 }
